@@ -35,7 +35,7 @@ ASSUMPTIONS = [
     'parseable as a number',
 ]
 ANCHORS = ['Table.delimited_self', 'Table._extract_data_from_tsv', 'Table.from_tsv', '_convert', 'parse_biom_table']
-REQUIRED = ['non_finite_value_in_last_column', 'export_legacy_function', 'export_other_column_name',
+REQUIRED = ['ids_with_blanks_at_their_edges', 'non_finite_value_in_last_column', 'export_legacy_function', 'export_other_column_name',
             'import_legacy_convert_table_to_biom', 'export_asked_for_absent_metadata', 'exported_again_after_change', 'export_to_tsv', 'export_str', 'export_direct_io',
             'export_cli', 'import_from_tsv_lines', 'import_from_tsv_handle',
             'import_load_table', 'import_load_table_gz',
@@ -48,7 +48,7 @@ _TAXA = ['k__Bacteria', 'p__Firmicutes', 'c__[Bacilli]', 'o__é', 'g__日本',
          's__x y', 'Unassigned', 'f__a/b', "d__it's", 'q__"x"']
 ID_OK = ['ascii', 'one', 'long', 'punct', 'space', 'slash', 'numeric',
          'natsort', 'latin1', 'cjk', 'astral', 'prefix', 'case', 'reserved',
-         'mixed']
+         'decimal', 'mixed']
 
 
 def plan(tier):
@@ -77,6 +77,22 @@ def run_case(ctx, index):
     if not all(id_ok(i) for i in spec.obs_ids + spec.samp_ids):
         ctx.skip('generated id outside the C03 alphabet')
         return
+    edge_blanks = r.random() < .15
+    if edge_blanks:
+        # blanks at the edges of an id are part of the id (fields are
+        # separated by tabs).  The one place the text form cannot keep them
+        # is the very end of the header line, i.e. after the last sample id.
+        def pad(i, lead=True, trail=True):
+            return (' ' if lead and r.random() < .5 else '') + i + \
+                (r.choice([' ', '  ']) if trail and r.random() < .5 else '')
+        spec.obs_ids = [pad(i) for i in spec.obs_ids]
+        spec.samp_ids = [pad(i, trail=(k < len(spec.samp_ids) - 1))
+                         for k, i in enumerate(spec.samp_ids)]
+        if len(set(spec.obs_ids)) != len(spec.obs_ids) or \
+                len(set(spec.samp_ids)) != len(spec.samp_ids):
+            ctx.skip('padding made ids collide')
+            return
+        ctx.count('ids_with_blanks_at_their_edges')
     with_md = r.random() < .4
     if with_md:
         def lineage():
